@@ -229,8 +229,8 @@ def P7():
             "z": z + (s2 + 1) * (s2 + 1) * dt + X.cos(s2) * t,
         },
         process_noise={"u": 0.5},
-        sensors={"m": {"b": s2 * t + w, "a": s2 + t * z}},
-        sensor_noise={"m": {"b": 0.5, "a": 1.5}},
+        sensors={"mix": {"b": s2 * t + w, "a": s2 + t * z}},
+        sensor_noise={"mix": {"b": 0.5, "a": 1.5}},
         note="nested shared sub-expressions across outputs (CSE target)",
     )
 
@@ -266,8 +266,8 @@ def P10():
             "p": p * X.cos(q) + dt * f2 * f3 / (1 + g2 * g2) + f1,
         },
         process_noise={"f3": 0.5, "f1": 0.25, "f2": 1.5},
-        sensors={"s": {"b": p * g1 + q * g2, "a": q * q * g3}, "t": {"c": p - g2}},
-        sensor_noise={"s": {"b": 0.5, "a": 0.25}, "t": {"c": 1.5}},
+        sensors={"sb": {"b": p * g1 + q * g2, "a": q * q * g3}, "ta": {"c": p - g2}},
+        sensor_noise={"sb": {"b": 0.5, "a": 0.25}, "ta": {"c": 1.5}},
         calibration_values={"g1": 0.5, "g2": 1.25, "g3": 0.75},
         note="3 controls, 3 calibrations, 2 states: controls/calibrations outnumber states",
     )
